@@ -100,6 +100,7 @@ type lexer struct {
 	last      atomic.Value
 	started   bool // a token has been scanned
 	lb        bool // a linebreak has just been skipped: comments and newlines after a line continuation still belong to it
+	bquote    bool // the current ')' token stands for the closing backquote of the substitution
 }
 
 func newLexer(env *interp.ExecEnv, name string, r io.RuneScanner) *lexer {
@@ -648,6 +649,11 @@ func (l *lexer) lexToken(tok int) action {
 			return l.lexPipeline
 		}
 	case ')', RAE:
+		if l.cmdSubst == '`' && len(l.stack) == 1 && !l.bquote {
+			// only a backquote closes a backquoted command substitution
+			l.error(l.pos, "syntax error: unexpected ')'")
+			return nil
+		}
 		if l.cmdSubst != 0 && len(l.stack) == 1 {
 			if l.heredoc.exists() {
 				// end of the command substitution before the
@@ -932,11 +938,6 @@ func (l *lexer) scanRaw() int {
 				l.unread()
 				return WORD
 			}
-			if r == ')' && l.cmdSubst == '`' && len(l.stack) == 1 {
-				// only a backquote closes a backquoted command substitution
-				l.error(ast.NewPos(l.line, l.col-1), "syntax error: unexpected ')'")
-				return -1
-			}
 			return l.scanOp(r)
 		case '<', '>':
 			// redirection operator
@@ -983,6 +984,7 @@ func (l *lexer) scanRaw() int {
 					return WORD
 				}
 				if len(l.stack) != 0 {
+					l.bquote = true
 					return ')'
 				}
 				return '('
